@@ -58,6 +58,10 @@ type c04priv struct {
 	nilp    *c04lbl
 }
 
+type namedB bool
+type namedF float64
+type c04nh template.HTML
+
 type c04self struct{}
 
 func (p c04self) Interface() interface{} { return p }
@@ -128,6 +132,8 @@ func c04extra() map[string]interface{} {
 		// maps whose interface-typed keys hold values of different kinds
 		"xmixnum": map[interface{}]string{1: "a", 2.5: "b"}, "xmixint": map[interface{}]string{int(1): "a", uint(2): "b", int8(3): "c"}, "xmixfs": map[interface{}]int{1.5: 1, "x": 2, 2.5: 3},
 		"xmixall": map[interface{}]interface{}{true: 1, "s": 2, 3: 3, 4.5: 4, [2]int{1, 2}: 5, T0{"k"}: 6, nil: 7, uint8(8): 8}, "xmixstr": map[fmt.Stringer]int{strer{}: 1, &c04lbl{"p"}: 2},
+		// named basic types holding their zero values (an empty named string, a named false, a named 0)
+		"xnsempty": namedS(""), "xnbfalse": namedB(false), "xnbtrue": namedB(true), "xnizero": namedI(0), "xnfzero": namedF(0), "xnhempty": c04nh(""),
 		"xselfw": c04self{}, "xcycw": c04cycA{}, "xdeepw": c04wrap{c04wrap{c04wrap{7}}}, "xpselfw": &c04self{},
 		"xhcnamed": func(h namedHC) (string, error) {
 			hh := plush.HelperContext(h)
